@@ -2,6 +2,13 @@
 """writes MANIFEST.json from the table below (keeps it valid and in one place)"""
 import json, os
 CHECKS = {
+ 'C15': dict(technique='who-may-write rule on the anti-replay fields (R-REPLAY-OWN), snapshot/restore and rollback-before-exit typestate (R-REPLAY-RB), must-pass-through validation (R-REPLAY-MUST), interval check of shift counts (R-RANGE)',
+             text='Decides the state discipline behind replay protection: only the window functions write the replay fields, everything the validation modifies '
+                  'is saved and restored on every path of the roll-back, unauthenticated exits roll back, every accepted request passed a successful validation, '
+                  'and window shifts are bounded. Seven genuine defects of the current tree (upstream design flaws that need a coordinated rewrite) are recorded '
+                  'in known_findings.txt and printed as KNOWN-FINDING on every run; any other violation fails. Acceptance over histories and nonce reuse '
+                  'across restarts are not decided.',
+             design='6 C15'),
  'C16': dict(technique='cursor/remaining-length availability analysis of look-ahead reads (R-LEN-READ), constant evaluation of the character-class predicates over all 256 bytes (R-URI-CLASS), NULL-check typestate (R-ALLOC-NULL)',
              text='Decides that the URI scanners never read behind the length-delimited input (every cursor[k] read is covered by a proven lower bound of the '
                   'remaining length, decode_segment only after a tested check_segment), that the unescaped sets used by the path/query reconstruction exclude the '
